@@ -112,4 +112,6 @@ def classify(mode, f0, fails):
 
 
 def witnesses():
-    return {"alt-mapped-object-in-cycle-left-as-mapping": {"handwritten": True, "seed": 1, "n": 120}}
+    from checks import c05
+    return {"alt-mapped-object-in-cycle-left-as-mapping": {"handwritten": True, "seed": 1, "n": 120},
+            "init-false-fields-not-restored": {"seed": 3, "n": 30, "spec": c05.NO_INIT_SPEC}}
